@@ -10,6 +10,7 @@
 #include <vector>
 
 #include <tao/pegtl.hpp>
+#include <tao/pegtl/buffer_input.hpp>
 #include <tao/pegtl/contrib/rep_one_min_max.hpp>
 
 using namespace tao::pegtl;
@@ -53,6 +54,41 @@ static std::string run( const std::string& s )
       }
    }
    delete[] buf;
+   return res;
+}
+
+// the same rule through an incremental input: buffer_input with Chunk = 1 over a reader that delivers one byte per call, so
+// that nothing beyond what the rule asked for with in.size( n ) is buffered (memory_input::size ignores its argument)
+struct byte_reader
+{
+   const char* p;
+   const char* e;
+   byte_reader( const char* b, const char* en ) : p( b ), e( en ) {}
+   std::size_t operator()( char* buffer, const std::size_t length )
+   {
+      if( ( p == e ) || ( length == 0 ) ) {
+         return 0;
+      }
+      buffer[ 0 ] = *p++;
+      return 1;
+   }
+};
+template< typename G >
+static std::string run_buffered( const std::string& s )
+{
+   std::string res;
+   buffer_input< byte_reader, eol::lf_crlf, std::string, 1 > in( "s", 64, s.data(), s.data() + s.size() );
+   try {
+      const bool r = parse< G, nothing, normal, apply_mode::action, rewind_mode::required >( in );
+      res = r ? "T " : "F ";
+      res += std::to_string( in.byte() );
+   }
+   catch( const parse_error& e ) {
+      res = std::string( "X " ) + std::string( e.message() ) + " @" + std::to_string( e.position_object().byte );
+   }
+   catch( ... ) {
+      res = "X other";
+   }
    return res;
 }
 
@@ -100,6 +136,7 @@ static void one_ctx( const char* name, const std::vector< std::string >& ins )
    for( const auto& s : ins ) {
       std::printf( "ROMM %u %u %s required %s | %s | %s\n", Min, Max, name, hex( s ).c_str(), run< R, rewind_mode::required >( s ).c_str(), run< E, rewind_mode::required >( s ).c_str() );
       std::printf( "ROMM %u %u %s optional %s | %s | %s\n", Min, Max, name, hex( s ).c_str(), run< R, rewind_mode::optional >( s ).c_str(), run< E, rewind_mode::optional >( s ).c_str() );
+      std::printf( "ROMM %u %u %s buffered %s | %s | %s\n", Min, Max, name, hex( s ).c_str(), run_buffered< R >( s ).c_str(), run< E, rewind_mode::required >( s ).c_str() );
    }
 }
 
